@@ -139,17 +139,28 @@ func sameScore(a, b eval.Score) bool { return !a.Less(b) && !b.Less(a) && a.Type
 
 // checkTTSearch runs one search with the table and compares it with the no-table search.
 func checkTTSearch(c *fw.Ctx, s search.Search, h gen.Hist, depth int, tt *recTable, sctx *search.Context, what string) (pv []board.Move, ok bool) {
+	return checkTTSearchWant(c, s, h, depth, tt, sctx, what, nil)
+}
+
+// checkTTSearchWant is checkTTSearch with an optional precomputed table-less root value.
+func checkTTSearchWant(c *fw.Ctx, s search.Search, h gen.Hist, depth int, tt *recTable, sctx *search.Context, what string, cached *eval.Score) (pv []board.Move, ok bool) {
 	b, good := boardOf(h)
 	if !good {
 		return nil, false
 	}
-	nb, _ := boardOf(h)
-	want, _, _, err := abValue(s, nb, depth)
-	if err != nil {
-		if err == search.ErrHalted {
-			c.Inconclusive("table-less search exceeded the poll budget: %s", what)
+	var want eval.Score
+	if cached != nil {
+		want = *cached
+	} else {
+		nb, _ := boardOf(h)
+		var err error
+		want, _, _, err = abValue(s, nb, depth)
+		if err != nil {
+			if err == search.ErrHalted {
+				c.Inconclusive("table-less search exceeded the poll budget: %s", what)
+			}
+			return nil, false
 		}
-		return nil, false
 	}
 	tt.b = b
 	before := adapt.TakeSnap(b)
